@@ -2,6 +2,7 @@
     [sync_tls], [init_check]) and model/Tls.v ([cert_for]). *)
 From KP Require Import model.Base model.ServiceMap model.Seq model.Tls.
 From KP Require Import proofs.ServiceMapFacts proofs.PauseFacts.
+From Coq Require Import ZifyNat.
 
 (** * Request policy *)
 
@@ -58,6 +59,54 @@ Qed.
 Lemma redirect_host_ipv6_no_port a :
   ~ In x5d a -> redirect_host (x5b :: a ++ [x5d]) = x5b :: a ++ [x5d].
 Proof. intros Hr. unfold redirect_host. now rewrite split_host_port_bracket_no_port. Qed.
+
+Lemma skipn_S_app {A} (a : list A) c rest : skipn (S (length a)) (a ++ c :: rest) = rest.
+Proof. induction a as [|x a IH]; [reflexivity|exact IH]. Qed.
+
+(** For every well-formed Host header the redirect target names the same
+    host with the port removed. *)
+Lemma redirect_host_wf h : wf_host h = true -> redirect_host h = host_without_port h.
+Proof.
+  destruct h as [|b0 r0]; [discriminate|].
+  assert (Hplain : hd_error (b0 :: r0) <> Some x5b -> wf_host (b0 :: r0) =
+            (negb (contains_byte (b0 :: r0) x5b) && negb (contains_byte (b0 :: r0) x5d) &&
+             match index_byte (b0 :: r0) colon with
+             | None => true
+             | Some i => negb (Nat.eqb i 0) && forallb is_digit (skipn (S i) (b0 :: r0))
+             end) /\
+            host_without_port (b0 :: r0) =
+              match index_byte (b0 :: r0) colon with Some i => firstn i (b0 :: r0) | None => b0 :: r0 end).
+  { intros Hh. destruct b0; try (split; reflexivity). exfalso. apply Hh. reflexivity. }
+  destruct (byte_eqb b0 x5b) eqn:Eb.
+  - (* bracketed *)
+    apply byte_eqb_eq in Eb. subst b0. cbn [wf_host host_without_port].
+    destruct (index_byte r0 x5d) as [e|] eqn:Ei; [|discriminate].
+    destruct (index_byte_some _ _ _ Ei) as (a & rest & -> & Hna & Hl). subst e.
+    rewrite firstn_length_app.
+    rewrite skipn_S_app.
+    intros H. apply andb_true_iff in H as [H Hrest]. apply andb_true_iff in H as [Hnb Hc].
+    apply negb_true_iff, contains_byte_false in Hnb. apply contains_byte_true in Hc.
+    destruct rest as [|c port].
+    + now rewrite redirect_host_ipv6_no_port.
+    + apply andb_true_iff in Hrest as [Ec Hd]. apply byte_eqb_eq in Ec. subst c.
+      now rewrite (redirect_host_ipv6_port a port Hc Hnb Hna (digits_plain _ Hd)).
+  - (* plain *)
+    assert (Hh : hd_error (b0 :: r0) <> Some x5b).
+    { cbn. intros E. inversion E; subst. discriminate. }
+    destruct (Hplain Hh) as [-> ->]. set (h := b0 :: r0) in *.
+    intros H. apply andb_true_iff in H as [H Hp]. apply andb_true_iff in H as [Hl Hr].
+    apply negb_true_iff, contains_byte_false in Hl. apply negb_true_iff, contains_byte_false in Hr.
+    destruct (index_byte h colon) as [i|] eqn:Ei.
+    + apply andb_true_iff in Hp as [Hi Hd]. apply negb_true_iff, Nat.eqb_neq in Hi.
+      destruct (index_byte_some _ _ _ Ei) as (host & port & E & Hnc & Hlen). subst i.
+      rewrite E in *. rewrite firstn_length_app.
+      rewrite skipn_S_app in Hd.
+      apply redirect_host_port.
+      * intros ->. now apply Hi.
+      * repeat split; [exact Hnc| |]; intros Hin; [apply Hl|apply Hr]; apply in_or_app; now left.
+      * now apply digits_plain.
+    + apply redirect_host_no_port. now apply index_byte_none.
+Qed.
 
 (** * Wildcard hosts and automatic TLS *)
 
